@@ -288,6 +288,11 @@ impl Boudot2000RangeProof {
             {
                 boolean = false;
             }
+            // verification instrumentation only: a cheating prover gives up after 64 draws and hands out what it has
+            #[cfg(feature = "verif_hooks")]
+            if verif_hooks::cheating_prover_gives_up() {
+                boolean = false;
+            }
         }
 
         // proof_li = {'C': int(C), 'D_1': int(D_1), 'D_2': int(D_2)}
@@ -332,6 +337,17 @@ impl Boudot2000RangeProof {
         false
     }
 
+    /// floor(sqrt(v)): the square part of the decomposition v = x_1^2 + x_2
+    fn square_part(v: &Integer) -> Integer {
+        // verification instrumentation only: a prover that does not follow the protocol for a value outside the
+        // interval (v < 0) takes 0 as the square part instead of failing
+        #[cfg(feature = "verif_hooks")]
+        if *v < 0 && verif_hooks::cheating_prover() {
+            return Integer::from(0);
+        }
+        Integer::from(v.sqrt_ref())
+    }
+
     /* Algorithm 7 Proof with Tolerance Specific factor 2 ** T */
     fn proof_of_tolerance_specific<H>(
         x: Integer,
@@ -373,10 +389,10 @@ impl Boudot2000RangeProof {
 
         let x_b = bb - &x;
 
-        let x_a_1 = Integer::from(x_a.sqrt_ref());
+        let x_a_1 = Self::square_part(&x_a);
         let x_a_2 = x_a - x_a_1.clone().pow(2);
 
-        let x_b_1 = Integer::from(x_b.sqrt_ref());
+        let x_b_1 = Self::square_part(&x_b);
         let x_b_2 = x_b - x_b_1.clone().pow(2);
 
         let mut boolean = true;
@@ -688,5 +704,46 @@ impl Boudot2000RangeProof {
             T,
         );
         valid
+    }
+}
+
+/// Verification instrumentation (cargo feature `verif_hooks`, off by default): lets an external checker run the
+/// prover as a cheating prover (see `square_part`), to present the verifier with proofs for out-of-range values.
+/// Thread-local; the library never sets it.
+#[cfg(feature = "verif_hooks")]
+pub mod verif_hooks {
+    use std::cell::Cell;
+
+    thread_local! {
+        static CHEATING_PROVER: Cell<bool> = Cell::new(false);
+    }
+
+    /// Switches the cheating prover on or off for the calling thread.
+    pub fn set_cheating_prover(on: bool) {
+        CHEATING_PROVER.with(|c| c.set(on));
+    }
+
+    pub(crate) fn cheating_prover() -> bool {
+        CHEATING_PROVER.with(|c| c.get())
+    }
+
+    thread_local! {
+        static DRAWS: Cell<u32> = Cell::new(0);
+    }
+
+    /// Counts the draws of the cheating prover's rejection loops; true once 64 have been used (the counter restarts).
+    pub(crate) fn cheating_prover_gives_up() -> bool {
+        if !cheating_prover() {
+            return false;
+        }
+        DRAWS.with(|d| {
+            d.set(d.get() + 1);
+            if d.get() >= 64 {
+                d.set(0);
+                true
+            } else {
+                false
+            }
+        })
     }
 }
